@@ -17,7 +17,9 @@ TOKENS = ['STARBUCKS', 'STORE', 'Cafe', "JOE'S", 'A.B', 'C*D', 'X+Y', '(NEW)', '
           # a long number directly followed by text (a store id with a suffix, an amount inside the description)
           '5744A21', '0042.50', '12345X',
           # characters a bank export can carry that cannot stand in a rules file as they are (a NUL byte, other control characters)
-          'A\x00B', 'BEL\x07L', 'C1\x9fX']
+          'A\x00B', 'BEL\x07L', 'C1\x9fX',
+          # characters outside the Basic Multilingual Plane (an escape written as a surrogate pair would not be read back as the character)
+          '\U0001F355', 'BOBA\U0001F9CB']
 PREFIXES = ['', 'SQ *', 'TST* ', 'APLPAY ', 'PP*', 'GOOGLE *', 'SP ']
 
 
@@ -87,6 +89,36 @@ def check_loop(transforms=''):
         b.close()
 
 
+def check_csv_format():
+    """`tally discover --format csv` proposes rows for a legacy merchant_categories.csv: each row, once given a category, is read back by the CSV rules
+    loader as a rule that matches the description it was proposed for (quotes and commas in a description are written the way the CSV format asks)"""
+    from tally.merchant_utils import get_all_rules, normalize_merchant, clear_engine_cache
+    b = Budget()
+    try:
+        descs = ['PLAIN SHOP', '"BEST" BBQ AUSTIN', 'ACME, INC', 'COMMA,QUOTE" MIX', "JOE'S DINER"]
+        b.write('data/card.csv', 'Date,Description,Amount\n' + ''.join('01/0%d/2025,"%s",%d.00\n' % (i + 1, d.replace('"', '""'), 10 + i) for i, d in enumerate(descs)))
+        b.write('config/merchants.rules', '[Nothing]\nmatch: contains("ZZZZZZ")\ncategory: P\nsubcategory: Q\n')
+        b.settings({'year': 2025, 'merchants_file': 'config/merchants.rules',
+                    'data_sources': [{'name': 'Card', 'file': 'data/card.csv', 'format': '{date:%m/%d/%Y}, {description}, {amount}'}]})
+        out, err, code = run_cmd(cmd_discover, config=b.config, settings='settings.yaml', limit=0, format='csv')
+        O.case(('csv_format',))
+        rows = [l for l in out.splitlines() if l.strip() and not l.startswith('#') and 'CATEGORY' in l]
+        path = os.path.join(b.config, 'suggested.csv')
+        open(path, 'w').write('Pattern,Merchant,Category,Subcategory\n' + '\n'.join(r.replace('SUBCATEGORY', 'Sub').replace('CATEGORY', 'Cat') for r in rows) + '\n')
+        clear_engine_cache()
+        tuples = get_all_rules(path)
+        missing = []
+        for d in descs:
+            m, c, s_, info = normalize_merchant(d, tuples, amount=10.0)
+            if c != 'Cat':
+                missing.append(d)
+        if missing or len(rows) != len(descs):
+            O.fail('C19.csv_suggestion_does_not_match_its_description', {'csv_format': True}, 'every proposed CSV row, read back by the CSV rules loader, matches its description',
+                   {'not matched': missing, 'rows': rows}, 'tally discover --format csv; get_all_rules(csv) + normalize_merchant')
+    finally:
+        b.close()
+
+
 def check_loop_custom_fields():
     """discover -> append -> discover with transforms that read and rewrite custom columns: classification transforms the captures once; the suggestion has to be
     built from the description the rules saw, not from transforms applied a second time to already transformed fields"""
@@ -122,6 +154,9 @@ def check_loop_custom_fields():
 
 
 def main():
+    if O.witness and 'csv_format' in O.witness:
+        check_csv_format()
+        O.finish()
     if O.witness and 'loop_fields' in O.witness:
         check_loop_custom_fields()
         O.finish()
@@ -144,6 +179,7 @@ def main():
                 for sep in (' ', '  '):
                     check_desc(pre + sep.join(toks))
     check_loop_custom_fields()
+    check_csv_format()
     check_loop()
     check_loop('field.description = regex_replace(field.description, "^PAYPAL \\\\*", "")\n\n')
     check_loop('field.description = regex_replace(regex_replace(field.description, "^DD \\\\*DOORDASH ", ""), "^SQ \\\\*", "SQUARE ")\n\n')
